@@ -224,4 +224,18 @@ CHECKS = {
              "and from the re-encoded bytes, and must not reject what the library accepts.",
         note=_TB,
     ),
+    "C04": dict(
+        engine="E2 deviation-bounded", level="model_checking", design_ref="5/C04",
+        technique="deviation-bounded stateless exploration of two real SD stacks on one virtual loop with an explorer-owned network: all schedules with <=2 disturbances (stop/start/crash/restart/loss/dup/reorder) at every discovered timer instant; convergence oracle at the deadline and at the horizon",
+        text="Two complete real stacks (offerer with a server listener, watcher with find_subscribe_eventgroup and a client "
+             "listener) exchange their datagrams through a FIFO network owned by the explorer. For three timing "
+             "configurations (finite TTL with refresh; infinite TTL without and with refresh) x both ends of the random "
+             "delay windows, every schedule with one disturbance - graceful stop/start, crash, restart, crash+restart "
+             "with gap 0 / 0.5 s / 4 s, loss windows, duplication, reordering - placed at every timer instant discovered "
+             "from the run (-eps, pre, post, +eps) is executed to the horizon; two disturbances for a sub-family (all in "
+             "the thorough tier). Both listeners' views are judged at last disturbance + TTL + cyclic period and again at "
+             "the horizon.",
+        note=_TB + "; a stack does not hear its own multicast; infinite-TTL configurations honour the statement's side "
+             "conditions (no loss / reordering, restarted peer sends at least one message)",
+    ),
 }
